@@ -31,9 +31,19 @@ for _k, _v in list(KEYS.items()):
 PS, PE = D(2020, 1, 1), D(2020, 3, 31)
 
 CASE_HEADER = """From Coq Require Import ZArith List Bool.
-From Bermuda Require Import Model.Base Model.Heap.
+From Bermuda Require Import Model.Base Model.Heap Model.HeapApi.
 Import ListNotations.
 Open Scope Z_scope.
+(* tag of a cell in the entry-point cases: slice * 10^8 + period * 10^4 + evaluation * 100 + prev code *)
+Definition tf_api : tagfns :=
+  mkTagfns (fun t => t / 10000) (fun t => t mod 100000000) (fun t => t) (fun t => t / 100)
+           (fun t => t / 100000000) (fun t => (t / 10000) mod 10000) (fun t => (t / 100) mod 100)
+           (fun t => (t / 100000000) * 100000000 + (((t / 10000) mod 10000) / 4 * 4) * 10000 + ((t / 100) mod 100) * 100)
+           (fun k => k) (fun k => k).
+Definition cfg_api : cfg :=
+  mkCfg Z.mul Z.div None (fun k => negb (k =? 9)) (fun k => (k =? 0) || (k =? 5) || (k =? 6))
+        (fun k => if k =? 6 then Some 2 else None)
+        (fun a b => b mod 100 =? (a / 100) mod 100 + 2) (fun t => t mod 100 =? (t / 10000) mod 10000 + 1).
 Definition cfg_sum : cfg :=
   mkCfg Z.mul Z.div None (fun k => negb (k =? 9)) (fun k => (k =? 0) || (k =? 5) || (k =? 6))
         (fun k => if k =? 6 then Some 2 else None)
@@ -203,7 +213,8 @@ def mods():
 
 KERNELS = ["conforming_sum", "weighted_average", "summarize_cell_values", "base_replace", "replace", "select",
            "derive_fields", "add_statics", "merge_cell_pair", "overwrite_values", "thin_cell", "values_add",
-           "values_diff", "to_cumulative", "to_incremental", "aggregate_group", "weight_cell_values", "blend_cells"]
+           "values_diff", "to_cumulative", "to_incremental", "aggregate_group", "weight_cell_values", "blend_cells",
+           "blend_cells_linear"]
 
 
 def lst(xs):
@@ -365,7 +376,7 @@ def build_case(kernel: str, seed: int):
                 cells.append(r.choice(cells))
                 continue
             vals = {f: (shared_scalar if f == "earned_premium" and r.random() < 0.9 else
-                        (r.randint(1, 9) if f == "earned_premium" else r.choice(g.arrs[:3]))) for f in fs}
+                        (r.randint(1, 9) if f == "earned_premium" else r.choice(g.arrs))) for f in fs}
             if r.random() < 0.08:
                 vals["incurred_loss"] = 1
             cells.append(g.cell(vals))
@@ -376,7 +387,9 @@ def build_case(kernel: str, seed: int):
 
         def rec_choice(*a, **kw):
             out = real_choice(*a, **kw)
-            picks[:] = [int(x) for x in np.asarray(out).tolist()]
+            new = [int(x) for x in np.asarray(out).tolist()]
+            if len(new) > len(picks):           # same seed every time: shorter draws are prefixes
+                picks[:] = new
             return out
 
         def thunk():
@@ -390,10 +403,27 @@ def build_case(kernel: str, seed: int):
             pk = picks
             if not pk:                                    # no draw happened (scalars only / raised before)
                 np.random.seed(seedv)
-                pk = [int(x) for x in real_choice(range(k), g.n, p=w)]
+                pk = [int(x) for x in real_choice(range(k), g.n + 1, p=w)]
             return f"KBlendCells {lst([H.val(x) for x in cells])} {lst([f'{i}%nat' for i in pk])}"
 
         c.update(roots=cells, thunk=thunk, coq=coq)
+    elif kernel == "blend_cells_linear":
+        k = r.randint(1, 3)
+        fs = r.sample(["earned_premium", "paid_loss", "reported_loss"], r.randint(1, 2))
+        cells = []
+        for i in range(k):
+            if cells and r.random() < 0.2:
+                cells.append(r.choice(cells))
+                continue
+            vals = {f: r.choice([r.randint(1, 9), r.randint(1, 40) / 4, r.choice(g.arrs), r.choice(g.arrs)]) for f in fs}
+            if r.random() < 0.06:
+                vals[fs[0]] = None
+            if r.random() < 0.06:
+                vals["incurred_loss"] = 1
+            cells.append(g.cell(vals))
+        w = [r.choice([0.25, 0.5, 0.75]) for _ in range(k if r.random() < 0.92 else k + 1)]
+        c.update(roots=cells, exact=False, thunk=lambda: S.blend_cells(cells, w, "linear", None),
+                 coq=lambda H: f"KBlendCellsLinear {lst([H.val(x) for x in cells])} {lst([z(int(x * 1024)) for x in w])}")
     else:
         raise KeyError(kernel)
     c.setdefault("args", c["roots"])
@@ -536,6 +566,264 @@ def policy_year_alias_check(seed):
     return changes, bad, "raised:" + type(exc).__name__ if exc is not None else "returned"
 
 
+# ------------------------------------------------------------------------------------------ entry points
+ENTRIES = ["to_incremental", "to_cumulative", "summarize", "blend", "select", "derive_fields", "replace", "merge",
+           "coalesce", "add_statics", "thin", "aggregate_period", "aggregate"]
+
+
+def qidx(d):
+    return (d.year - 2020) * 4 + (d.month - 1) // 3
+
+
+def qend(i):
+    y, q = 2020 + i // 4, i % 4
+    return D(y, 3 * q + 3, [31, 30, 30, 31][q])
+
+
+def qstart(i):
+    y, q = 2020 + i // 4, i % 4
+    return D(y, 3 * q + 1, 1)
+
+
+def make_tag_api(smap):
+    def tag(c):
+        s_ = smap.get(c.metadata, 0)
+        p_ = qidx(c.period_start)
+        e_ = qidx(c.evaluation_date)
+        pv = getattr(c, "prev_evaluation_date", None)
+        q_ = 0 if pv is None else qidx(pv) + 2
+        return s_ * 10**8 + p_ * 10**4 + e_ * 100 + q_
+    return tag
+
+
+def api_triangle(g, r, metas_, periods, nlags, inc, fields, p_arr=0.5, p_none=0.0, lag0=0):
+    from bermuda import CumulativeCell, IncrementalCell, Triangle
+
+    cells = []
+    for m in metas_:
+        for p_ in periods:
+            prev = qstart(p_) - datetime.timedelta(days=1)
+            for lag in range(lag0, lag0 + nlags):
+                e = qend(p_ + lag)
+                vals = cells[-1].values if cells and r.random() < 0.12 else {f: g.value(p_arr=p_arr, p_none=p_none) for f in fields}
+                if inc:
+                    cells.append(IncrementalCell(period_start=qstart(p_), period_end=qend(p_), evaluation_date=e,
+                                                 prev_evaluation_date=prev, values=vals, metadata=m))
+                    prev = e
+                else:
+                    cells.append(CumulativeCell(period_start=qstart(p_), period_end=qend(p_), evaluation_date=e,
+                                                values=vals, metadata=m))
+    r.shuffle(cells)
+    return Triangle(cells)
+
+
+def build_api_case(entry, seed):
+    from bermuda import Metadata, Triangle
+    import bermuda.utils as U
+
+    S, B, Mg, T, Dg, A = mods()
+    r = random.Random(seed)
+    g = KGen(r)
+    metas_ = [Metadata(country="US"), Metadata(country="DE"), Metadata(country="US", currency="EUR")]
+    ms = metas_[: r.choice([1, 1, 2])]
+    if entry == "summarize" and r.random() < 0.15:
+        ms = [metas_[0], metas_[2]]                       # inconsistent currency: TriangleError
+    smap = {m: i for i, m in enumerate(metas_)}
+    tag = make_tag_api(smap)
+    fields = r.sample(["earned_premium", "paid_loss", "reported_loss"], r.randint(1, 3))
+    periods = sorted(r.sample(range(0, 6), r.randint(1, 3)))
+    nl = r.randint(1, 3)
+    c = {"exact": True, "tag": tag, "restag": tag, "cfg": "cfg_api"}
+    zero_q = lambda cell: tag(cell) // 100 * 100          # noqa: E731
+    b = lambda x: str(bool(x)).lower()                    # noqa: E731
+
+    def cl(H, tri):
+        return lst([H.val(x) for x in tri.cells])
+
+    if entry in ("to_incremental", "to_cumulative"):
+        inc = r.random() < (0.25 if entry == "to_incremental" else 0.75)
+        t = api_triangle(g, r, ms, periods, nl, inc, fields, p_none=0.0)
+        if inc and entry == "to_cumulative" and r.random() < 0.2 and len(t) > 1:
+            t = Triangle(t.cells[:-2] + t.cells[-1:]) if r.random() < 0.5 else Triangle(t.cells[1:])   # broken chain
+        lookup = {tag(x) // 100: tag(x) for x in t.cells}
+        fn = U.to_incremental if entry == "to_incremental" else U.to_cumulative
+        nm = "AToIncremental" if entry == "to_incremental" else "AToCumulative"
+        c.update(tris=[t], thunk=lambda: fn(t), coq=lambda H: f"{nm} {b(t.is_incremental)} {cl(H, t)}",
+                 restag=(zero_q if entry == "to_incremental" else (lambda cell: lookup.get(tag(cell) // 100, -1))))
+    elif entry == "summarize":
+        inc = r.random() < 0.3
+        fs = fields + (["foo_field"] if r.random() < 0.1 else [])
+        t = api_triangle(g, r, ms, periods, nl, inc, fs, p_none=0.05)
+        prem = True if inc else r.random() < 0.6
+        ok = t.has_consistent_risk_basis and t.has_consistent_currency
+        c.update(tris=[t], thunk=lambda: U.summarize(t, summarize_premium=prem),
+                 coq=lambda H: f"ASummarize {b(ok)} {b(prem)} {cl(H, t)}", restag=lambda cell: tag(cell) % 10**8)
+    elif entry == "blend":
+        k = r.randint(2, 3)
+        base = api_triangle(g, r, ms, periods, nl, False, fields, p_arr=1.0)
+        base = base.derive_fields(earned_premium=5) if "earned_premium" in fields else base
+        tris = [base]
+        for _ in range(k - 1):
+            x = r.random()
+            if x < 0.3:
+                tris.append(base)                                        # the same triangle twice
+            elif x < 0.85:
+                tris.append(base.replace(values=lambda cell: dict(cell.values)))   # new cells, shared arrays
+            else:
+                tris.append(Triangle(base.cells[1:] + base.cells[:1]) if len(base) > 1 and r.random() < 0.5
+                            else api_triangle(g, r, ms, periods[:1], nl + 1, False, fields, p_arr=1.0))
+        w = [1.0 / k] * k
+        seedv = r.randrange(1000)
+        picks = []
+        real_choice = np.random.choice
+
+        def rec_choice(*a, **kw):
+            out = real_choice(*a, **kw)
+            new = [int(x) for x in np.asarray(out).tolist()]
+            if len(new) > len(picks):           # same seed every time: shorter draws are prefixes
+                picks[:] = new
+            return out
+
+        def thunk():
+            np.random.choice = rec_choice
+            try:
+                return U.blend(tris, weights=w, method="mixture", seed=seedv)
+            finally:
+                np.random.choice = real_choice
+
+        def coq(H):
+            pk = picks
+            if not pk:
+                np.random.seed(seedv)
+                pk = [int(x) for x in real_choice(range(k), g.n + 1, p=w)]
+            tl = "[" + "; ".join(cl(H, t_) for t_ in tris) + "]"
+            return f"ABlend {tl} {lst([f'{i}%nat' for i in pk])}"
+
+        c.update(tris=tris, thunk=thunk, coq=coq)
+    elif entry in ("select", "derive_fields", "replace"):
+        t = api_triangle(g, r, ms, periods, nl, r.random() < 0.3, fields, p_none=0.05)
+        if entry == "select":
+            ks = r.sample(list(KEYS)[:5], r.randint(0, 3))
+            c.update(tris=[t], thunk=lambda: t.select(ks), coq=lambda H: f"ASelect {cl(H, t)} {lst([str(KEYS[k_]) for k_ in ks])}")
+        elif entry == "derive_fields":
+            defs = {f: g.value() for f in r.sample(list(KEYS)[:5], r.randint(0, 3))}
+            c.update(tris=[t], extra=[v for v in defs.values() if isinstance(v, np.ndarray)],
+                     thunk=lambda: t.derive_fields(**defs),
+                     coq=lambda H: f"ADeriveFields {cl(H, t)} {lst([f'({KEYS[k_]}, {H.val(v)})' for k_, v in defs.items()])}")
+        else:
+            nv = r.choice([g.values_dict(), t.cells[0].values, 3])
+            c.update(tris=[t], extra=[nv] if isinstance(nv, dict) else [], thunk=lambda: t.replace(values=nv),
+                     coq=lambda H: f"AReplace {cl(H, t)} [DValues {H.val(nv)}]")
+    elif entry in ("merge", "coalesce", "add_statics"):
+        inc = r.random() < 0.25 and entry != "add_statics"
+        t1 = api_triangle(g, r, ms, periods, nl, inc, fields, p_none=0.05)
+        x = r.random()
+        f2 = r.sample(["earned_premium", "paid_loss", "incurred_loss"], r.randint(1, 2))
+        if x < 0.15:
+            t2 = t1
+        elif x < 0.35 and len(t1) > 1:
+            t2 = t1[: max(1, len(t1) // 2)]                              # shares cell objects with t1
+        else:
+            t2 = api_triangle(g, r, metas_[: r.choice([1, 2])], sorted(r.sample(range(0, 6), r.randint(1, 3))),
+                              r.randint(1, 3), inc, f2, p_none=0.05)
+        if entry == "merge":
+            jt = r.choice(["full", "inner", "left", "right", "left_anti", "right_anti"])
+            kl, kr, km = {"full": (1, 1, 1), "left": (1, 0, 1), "right": (0, 1, 1), "inner": (0, 0, 1),
+                          "left_anti": (1, 0, 0), "right_anti": (0, 1, 0)}[jt]
+            c.update(tris=[t1, t2], thunk=lambda: U.merge(t1, t2, join_type=jt),
+                     coq=lambda H: f"AMerge {b(kl)} {b(kr)} {b(km)} {cl(H, t1)} {cl(H, t2)}")
+        elif entry == "coalesce":
+            tl = [t1, t2] + ([t1] if r.random() < 0.2 else [])
+            c.update(tris=tl, thunk=lambda: U.coalesce(tl),
+                     coq=lambda H: "ACoalesce [" + "; ".join(cl(H, t_) for t_ in tl) + "]")
+        else:
+            fs = r.sample(list(KEYS)[:5], r.randint(0, 3))
+            c.update(tris=[t1, t2], thunk=lambda: U.add_statics(t1, t2, statics=fs),
+                     coq=lambda H: f"AAddStatics {cl(H, t1)} {cl(H, t2)} {lst([str(KEYS[k_]) for k_ in fs])}")
+    elif entry == "thin":
+        t = api_triangle(g, r, ms, periods, nl, r.random() < 0.3, fields, p_arr=0.8, p_none=0.05)
+        try:
+            n = t.num_samples
+        except ValueError:
+            raise NotRepresentable("inconsistent sample counts")
+        k = r.choice([1, max(1, n - 1), n, n + 1])
+        sd = r.randrange(1000)
+        draw = []
+        orig = np.random.default_rng
+
+        class _R:
+            def __init__(self, real):
+                self.real = real
+
+            def choice(self, *a, **kw):
+                out = self.real.choice(*a, **kw)
+                draw[:] = [int(x) for x in out.tolist()]
+                return out
+
+        def thunk():
+            np.random.default_rng = lambda sd_=None: _R(orig(sd_))
+            try:
+                return U.thin(t, k, seed=sd)
+            finally:
+                np.random.default_rng = orig
+
+        c.update(tris=[t], thunk=thunk,
+                 coq=lambda H: f"AThin {n}%nat {k}%nat {cl(H, t)} {lst([f'{i}%nat' for i in draw])}")
+    elif entry in ("aggregate_period", "aggregate"):
+        inc = entry == "aggregate" and r.random() < 0.4
+        ms_ = ms if entry == "aggregate" else ms[:1]
+        t = api_triangle(g, r, ms_, periods, nl, inc, fields, p_none=0.0, lag0=r.choice([0, 0, 3]))
+        prem = r.random() < 0.6
+        if entry == "aggregate_period":
+            ordered = sorted(t.cells, key=lambda x: x.coordinates)
+            c.update(tris=[t], thunk=lambda: A._aggregate_period(t, (1, "year"), D(1999, 12, 31), prem),
+                     coq=lambda H: f"AAggregatePeriod {b(prem)} {lst([H.val(x) for x in ordered])}")
+        else:
+            c.update(tris=[t], thunk=lambda: U.aggregate(t, period_resolution=(1, "year"), summarize_premium=prem),
+                     coq=lambda H: f"AAggregate {b(inc)} {b(prem)} (fun _ => true) {cl(H, t)}", restag=zero_q)
+    else:
+        raise KeyError(entry)
+    return c
+
+
+def run_api_case(entry, seed):
+    import bermuda
+
+    with warnings.catch_warnings():
+        warnings.simplefilter("ignore")
+        try:
+            c = build_api_case(entry, seed)
+        except Exception as ex:  # noqa: BLE001
+            return {"skipped": f"build:{type(ex).__name__}", "changed": []}
+        H = Heap(c["tag"])
+        try:
+            for t in c["tris"]:
+                for x in t.cells:
+                    H.add(x)
+            for o in c.get("extra", []):
+                H.add(o)
+            heap_term = H.term()
+        except (NotRepresentable, KeyError) as ex:
+            return {"skipped": f"encode:{type(ex).__name__}", "changed": []}
+        res, exc, changes = M.monitored(c["thunk"], (), {}, extra_watch=c["tris"] + c.get("extra", []))
+        try:
+            call = c["coq"](H)
+            if exc is not None:
+                obs = f"(ObsRaise {cerr(exc)})"
+            else:
+                cells = res.cells if isinstance(res, bermuda.Triangle) else list(res)
+                obs = f"(ObsRet (GBag {lst([sig(x, H, c['exact'], c['restag']) for x in cells])}))"
+        except NotRepresentable:
+            return {"skipped": "encode-result", "changed": changes}
+    term = f"agrees_api tf_api {c['cfg']} {b_(c['exact'])}\n  {heap_term}\n  ({call})\n  {obs}"
+    return {"skipped": None, "coq": term, "mut": "false", "changed": changes, "shared": True,
+            "outcome": "raised:" + type(exc).__name__ if exc is not None else "returned", "n_objs": len(H.objs)}
+
+
+def b_(x):
+    return str(bool(x)).lower()
+
+
 F21 = {"kind": "defaultdict_values_insert_on_read"}
 
 
@@ -640,7 +928,8 @@ def run(ctx):
         "module's own share helpers) and at function level (fingerprint + shares_memory)",
     ]
     # 1. proofs
-    ctx.audit_tree(["Model/Heap.v", "Proofs/HeapFrame.v", "Proofs/HeapKernels.v", "Props/C03.v"])
+    ctx.audit_tree(["Model/Heap.v", "Model/HeapApi.v", "Proofs/HeapFrame.v", "Proofs/HeapKernels.v", "Proofs/HeapApi.v",
+                    "Props/C03.v"])
     ctx.prove_static("Props/C03.v", timeout=600)
     if not ctx.quick:
         coqchk(ctx)
@@ -707,6 +996,22 @@ def run(ctx):
         for k_, case in enumerate(py["cases"]):
             done.append(("policy_year_cell", pseed, case))
             ctx.nontriv(("kernel", "policy_year_cell", pseed, k_))
+    per_api = 30 if ctx.quick else 300
+    for entry in ENTRIES:
+        for _ in range(per_api):
+            aseed = rng.randrange(2**31)
+            out = run_api_case(entry, aseed)
+            ctx.hist(f"entry:{entry}:" + (out["skipped"] and "skipped" or out["outcome"].split(":")[0]))
+            if out["changed"] and ("entry:" + entry) not in flagged:
+                found_input = True
+                flagged.add("entry:" + entry)
+                ctx.violation("impl-violation", f"entry point {entry} changed an argument: {out['changed'][0][1]}",
+                              {"mode": "entry", "entry": entry, "seed": aseed, "change": out["changed"][0][1]},
+                              found_input=True)
+            if out["skipped"]:
+                continue
+            done.append(("entry:" + entry, aseed, out))
+            ctx.nontriv(("entry", entry, aseed))
     ctx.count(evaluations=len(done) + (60 if ctx.quick else 600), traces=len(done))
     for f in ctx.build.glob("cases_*.v*"):
         f.unlink()
@@ -819,6 +1124,10 @@ def replay(ctx, data):
     if mode == "kernel":
         out = run_kernel_case(data["kernel"], data["seed"])
         print(data["kernel"], out.get("outcome"), "changed:", out["changed"])
+        return 1 if out["changed"] else 0
+    if mode == "entry":
+        out = run_api_case(data["entry"], data["seed"])
+        print(data["entry"], out.get("outcome"), "changed:", out["changed"])
         return 1 if out["changed"] else 0
     if mode == "policy_year_cell":
         py = policy_year_cases(data["seed"])
